@@ -1,5 +1,6 @@
 import Spine.Sender
 import Spine.SenderEv
+import Spine.SenderKey
 import Spine.Generated.Sender
 open Spine.Snd
 /-! Line protocol for the sender model (C13). One op per line, one answer per line.
@@ -8,7 +9,18 @@ open Spine.Snd
     `member` answers the STATIC family member regenerated from the source: `before` (the request is remembered before the
     write), `after-window` (after it, and a response can be processed in between), `after-nowindow`.
     `reqf h r` is a `Request` during whose write a response referencing counter `r` is processed (`r = 0`: the
-    request's own counter): the events `reqBegin`, `plain (response …)`, `reqEnd` of `Spine.SndEv`. -/
+    request's own counter): the events `reqBegin`, `plain (response …)`, `reqEnd` of `Spine.SndEv`.
+    `reqk <device> <feature> <entity path> <commands>` / `reqkf … <r>` are `req` / `reqf` with the STRUCTURED request
+    identity (`Spine.SndK.Key`: numbers, lists comma-separated, `-` = empty list; device / feature 0 = absent): the
+    model hashes the whole key (`Key.hash`), the harness never collapses destination and command list into one id. -/
+
+def parseList (s : String) : Option (List Nat) :=
+  if s = "-" then some [] else (s.splitOn ",").mapM (·.toNat?)
+
+def parseKey (d f e c : String) : Option Spine.SndK.Key :=
+  match d.toNat?, f.toNat?, parseList e, parseList c with
+  | some d, some f, some e, some c => some ⟨⟨d, e, f⟩, c⟩
+  | _, _, _, _ => none
 
 def reqInFlight (f : Bool) (s : Spine.SndEv.St) (h r : Nat) : Spine.SndEv.St × String :=
   match Spine.SndEv.observe s (.reqBegin 0 h) with
@@ -28,6 +40,12 @@ partial def loop (h out : IO.FS.Stream) (f : Bool) (es : Spine.SndEv.St) : IO Un
     | ["req", hs] => match hs.toNat? with
       | some hh => let (s', c, w) := request s hh; (f, { es with base := s' }, s!"{c} {if w then 1 else 0}")
       | none => (f, es, "bad-op")
+    | ["reqk", dv, ft, en, cs] => match parseKey dv ft en cs with
+      | some k => let (s', c, w) := request s k.hash; (f, { es with base := s' }, s!"{c} {if w then 1 else 0}")
+      | none => (f, es, "bad-op")
+    | ["reqkf", dv, ft, en, cs, rs] => match parseKey dv ft en cs, rs.toNat? with
+      | some k, some r => let (es', a) := reqInFlight f es k.hash r; (f, es', a)
+      | _, _ => (f, es, "bad-op")
     | ["reqf", hs, rs] => match hs.toNat?, rs.toNat? with
       | some hh, some r => let (es', a) := reqInFlight f es hh r; (f, es', a)
       | _, _ => (f, es, "bad-op")
